@@ -16,7 +16,9 @@ VALUES = {
     'float': [2.5, 0.25, -0.5, 1e-07, 123456789.125, 3.0],
     'bool': [True, False],
     'null': [None],
-    'str': ['x', "it's", '2.5', ''],
+    # strings: plain, a quote, number-like, empty, and the characters the property names (line break with blanks around it, double quote,
+    # comment markers, back-slash, percent / colon / semicolon) - pairs of them meet in every position
+    'str': ['x', "it's", '2.5', '', 'a \n b', 'q"q', '--c /*', 'x\\', '%s :p ;', "''"],
 }
 POSITIONS = ['select-list', 'where-and', 'in-list', 'not-in-list-3', 'between', 'insert-rows', 'update-set-where', 'function-args', 'case', 'in-list-first-of-3', 'limit-offset', 'union-limit', 'subquery-limit']
 
